@@ -146,7 +146,14 @@ impl Setsum {
             let idx = col * SETSUM_BYTES_PER_COLUMN;
             let mut buf = [0u8; 4];
             buf.clone_from_slice(&digest[idx..idx + 4]);
-            *item = u32::from_le_bytes(buf);
+            let num = u32::from_le_bytes(buf);
+            // Reduce like hash_to_state does.  A column at or above its prime is not a valid
+            // state: invert_state would underflow and add_state would truncate on it.
+            *item = if num >= SETSUM_PRIMES[col] {
+                num - SETSUM_PRIMES[col]
+            } else {
+                num
+            };
         }
         Self { state }
     }
